@@ -19,11 +19,12 @@ def depslib_trusted():
             "Model/DepsReplay.guess is untrusted: acceptance re-runs Model/Deps.run on the guessed schedule"]
 
 
-def contention(ctx, parts=("contend", "generic", "names", "invalid", "custom", "verbose")):
+def contention(ctx, parts=("contend", "generic", "names", "invalid", "custom", "verbose", "wide"), rounds=None):
     """C01 under contention: a lost update in the registry only shows when several goroutines miss
     the same fresh key at the same instant (oracle only; the theorem side is C01_at_most_once)."""
     binp = os.path.join(ctx.tmp, "bin_depsrun")
-    rounds, gor = (4000, 8) if ctx.quick else (60000, 16)
+    gor = 8 if ctx.quick else 16
+    rounds = rounds or (4000 if ctx.quick else 60000)
     spec = {"contend": {"rounds": rounds, "goroutines": gor}}
     rc, out, err = sh([binp], input=json.dumps(spec).encode(), timeout=600)
     if rc != 0:
@@ -59,6 +60,14 @@ def contention(ctx, parts=("contend", "generic", "names", "invalid", "custom", "
         if late != 1 or early != 0:
             ctx.violation({"kind": "oracle", "oracle": "C01", "clauses": ["MAGEFILE_VERBOSE=1 exported after a first dependency ran unverbosely (what a compiled magefile given -v does after init()): 'Running dependency:' printed %d times for the dependency executed afterwards (must be 1) and %d times for the one that had already run (must be 0)" % (late, early)]},
                           case={"call": "unset MAGEFILE_VERBOSE; mg.Deps(VpEarly); MAGEFILE_VERBOSE=1; mg.Deps(VpLate, VpEarly)", "stderr": seg[-600:]})
+    ctx.coverage["wide_calls_probe"] = r.get("wide")
+    if "wide" in parts and r.get("wide"):
+        ctx.violation({"kind": "oracle", "oracle": "C02", "clauses": ["one call naming many dependencies: %s" % "; ".join(r["wide"][:4])]},
+                      case={"call": "mg.Deps/CtxDeps/SerialDeps/SerialCtxDeps over n fresh mg.F values, n in 31..1000 (harness/depsrun/contend.go wideProbe)", "bad": r["wide"][:20]})
+    ctx.coverage["ctx_err_probe"] = r.get("ctx_err")
+    if "ctxerr" in parts and r.get("ctx_err"):
+        ctx.violation({"kind": "oracle", "oracle": "C03/C13", "clauses": ["a member failing with its context's own error: %s" % "; ".join(r["ctx_err"][:4])]},
+                      case={"call": "harness/depsrun/contend.go ctxErrProbe", "bad": r["ctx_err"]})
     if "contend" in parts and r["not_once"]:
         ctx.violation({"kind": "oracle", "oracle": "C01", "clauses": ["under contention %d of %d fresh dependencies requested by %d goroutines at once did not run exactly once (executions per key: %s)"
                                                                        % (len(r["not_once"]), r["keys"], gor, dict(list(r["not_once"].items())[:5]))]}, case=spec)
